@@ -529,6 +529,50 @@ func monC07(c *child.Ctx, replay json.RawMessage) {
 		}
 		c.Count("all_types_swept_with_short_bodies", 1)
 	}
+	// MSM bodies whose cell mask is exactly 64 bits long, with the first, the last or
+	// every cell set (frames long enough for the header, with and without the cells)
+	if c.Batch%4 == 3 {
+		for _, t := range []int{1074, 1077, 1084, 1087, 1094, 1097, 1124, 1127, 1104, 1137} {
+			for _, sh := range [][2]int{{8, 8}, {16, 4}, {4, 16}, {32, 2}, {2, 32}, {64, 1}} {
+				for pat := 0; pat < 4; pat++ {
+					m := &ref.MSM{Type: t, StationID: 7, Timestamp: 3000, CellsSent: -1}
+					for i := 0; i < sh[0]; i++ {
+						m.SatMask |= uint64(1) << uint(63-i)
+						m.Sats = append(m.Sats, ref.Sat{Whole: 70, Frac: 3})
+					}
+					for i := 0; i < sh[1]; i++ {
+						m.SigMask |= uint32(1) << uint(31-i)
+					}
+					for cidx := 0; cidx < 64; cidx++ {
+						on := pat == 3 || pat == 0 && cidx == 0 || pat == 1 && cidx == 63 || pat == 2 && (cidx == 0 || cidx == 63)
+						m.CellMask = append(m.CellMask, on)
+						if on {
+							m.Sigs = append(m.Sigs, ref.Sig{RangeDelta: 1, PhaseDelta: 2, Lock: 1, CNR: 30})
+						}
+					}
+					p := ref.EncodeMSM(m)
+					for _, cut := range []int{len(p), len(p) - 1, 40, 34, 33} {
+						if cut > len(p) || cut < 8 || cut > 1023 {
+							continue
+						}
+						doFrame(ref.Frame(p[:cut]), "cell mask of exactly 64 bits", true)
+					}
+				}
+			}
+		}
+		c.Count("full_cell_mask_frames", 1)
+	}
+	// runs without a start byte longer than any buffer someone might have sized
+	if c.Batch == 2 || c.Thorough() && c.Batch%16 == 2 {
+		for _, jl := range []int{4095, 4096, 4097, 5000, 20000, 65536, 65537, 100000} {
+			in := append(append(append([]byte(nil), gen.RandFrame(r).Bytes...), gen.NoD3(r.Bytes(jl))...), gen.RandFrame(r).Bytes...)
+			k := crashCase{Stream: hexs(in), Note: fmt.Sprintf("%d bytes without a start byte", jl)}
+			cj := c.BeginV(k)
+			execC07Stream(c, k, cj)
+			c.Eval(ref.Hash64(in), true)
+		}
+		c.Count("long_runs_without_a_start_byte", 1)
+	}
 	// long monotonous streams
 	if c.Batch == 0 || c.Thorough() && c.Batch < 12 {
 		zero := []byte{0xd3, 0, 0}
